@@ -29,6 +29,7 @@ fn gen(seed: u64, idx: u64, _tier: Tier) -> Plan {
     s.fault_written = s.fault_pct > 0;
     if mode == Mode::F {
         s.source = if rng.chance(1, 2) { ConfigSource::File } else { ConfigSource::Env };
+        file_layout(&mut rng, &mut s);
         if rng.chance(1, 3) {
             s.client_stats = Some("on".into());
             s.persist_dir = Some("/tmp".into());
